@@ -35,6 +35,10 @@ def native(profile='dev'):
     return n
 
 
+class _Stop(Exception):
+    pass
+
+
 class Job:
     """One symbolic harness.  path_fn(ctx, job) -> PathOutcome-like dict (see run_one_path)."""
 
@@ -72,11 +76,51 @@ def compare_native(pred, nat):
     return compare(pred, nat)
 
 
+def crosscheck(ctx, bad, expect_sat):
+    """Re-decide `path condition AND bad` with cvc5 and the system z3 (4.8.12) from an SMT-LIB2 dump.
+    Returns a disagreement description or None.  Any `(error` line or timeout is inconclusive -> reported."""
+    import subprocess, tempfile
+    s2 = z3.Solver()
+    for c in ctx.pc:
+        s2.add(c)
+    if bad is not True:
+        s2.add(bad)
+    text = '(set-logic ALL)\n' + s2.to_smt2()
+    want = 'sat' if expect_sat else 'unsat'
+    with tempfile.NamedTemporaryFile('w', suffix='.smt2', delete=False, dir='/tmp') as f:
+        f.write(text)
+        path = f.name
+    out = None
+    try:
+        for name, cmd in (('cvc5', ['cvc5', '--lang', 'smt2', '--tlimit=20000', path]),
+                          ('z3-4.8.12', ['/usr/bin/z3', '-smt2', '-T:20', path])):
+            try:
+                r = subprocess.run(cmd, stdout=subprocess.PIPE, stderr=subprocess.STDOUT, text=True, timeout=40)
+                ans = r.stdout.strip().splitlines()
+            except subprocess.TimeoutExpired:
+                ans = ['timeout']
+            if any('(error' in l for l in ans):
+                out = '%s reports an error on the dumped query: %s' % (name, ' '.join(ans)[:200])
+                break
+            verdict = ans[0].strip() if ans else ''
+            if verdict in ('timeout', 'unknown', ''):
+                continue   # inconclusive second opinion: not a disagreement
+            if verdict != want:
+                out = '%s answers %s where z3 %s answered %s' % (name, verdict, z3.get_version_string(), want)
+                break
+    finally:
+        try:
+            os.remove(path)
+        except OSError:
+            pass
+    return out
+
+
 def run_one_path(job, prefix):
     """Execute one path; returns (record, new_prefixes)."""
     ctx = Ctx(prefix)
     rec = {'job': job.name, 'status': 'ok', 'steps': 0, 'blocks': 0, 'queries': 0, 'solver_s': 0.0,
-           'validated': 0, 'funcs': ()}
+           'validated': 0, 'funcs': (), 'xchecked': 0}
     eng_box = {}
     try:
         chk = job.fn(ctx, job, eng_box)
@@ -86,6 +130,8 @@ def run_one_path(job, prefix):
             rec['blocks'] = eng.blocks
             rec['funcs'] = tuple(eng.functions_entered)
         checks = chk if isinstance(chk, list) else [chk]
+        hx = _stable_hash('x|%s|%s|%d' % (job.name, prefix, G['seed']))
+        want_x = (hx % 100000) < G.get('xcheck_rate', 0.0) * 100000
         for c in checks:
             bad = z3.Not(to_z3bool(c.ok)) if not isinstance(c.ok, bool) else (not c.ok)
             viol = False
@@ -93,6 +139,13 @@ def run_one_path(job, prefix):
                 viol = ctx.check()
             elif bad is not False:
                 viol = ctx.check(bad)
+            if want_x and bad is not False:
+                d = crosscheck(ctx, bad, viol)
+                rec['xchecked'] += 1
+                if d is not None:
+                    rec['status'] = 'solver_disagreement'
+                    rec['detail'] = d
+                    break
             if viol:
                 # known-finding regions: is there a violation outside all of them?
                 model = ctx.model()
@@ -144,6 +197,8 @@ def run_one_path(job, prefix):
                 rec['status'] = 'violation'
                 rec.setdefault('witnesses', []).append(w)
                 break
+        if rec['status'] == 'solver_disagreement':
+            raise _Stop()
         # sample description + optional native validation of a passing path
         if rec['status'] == 'ok':
             c = checks[0]
@@ -165,6 +220,8 @@ def run_one_path(job, prefix):
                                 rec['detail'] = {'scenario': sc, 'diff': d}
                                 break
                             rec['validated'] += 1
+    except _Stop:
+        pass
     except Unmodelled as e:
         rec['status'] = 'inconclusive'
         rec['detail'] = str(e)
@@ -194,7 +251,7 @@ def work(task):
     job = G['jobs'][job_name]
     stack = [list(prefix)]
     out = {'job': job_name, 'paths': 0, 'steps': 0, 'blocks': 0, 'queries': 0, 'solver_s': 0.0,
-           'validated': 0, 'status_counts': {}, 'witnesses': [], 'samples': [], 'problems': [],
+           'validated': 0, 'xchecked': 0, 'status_counts': {}, 'witnesses': [], 'samples': [], 'problems': [],
            'known_hits': [], 'funcs': set()}
     t0 = time.time()
     while stack and out['paths'] < limit:
@@ -202,7 +259,7 @@ def work(task):
         rec, new = run_one_path(job, p)
         stack.extend(reversed(new))
         out['paths'] += 1
-        for k in ('steps', 'blocks', 'queries', 'solver_s', 'validated'):
+        for k in ('steps', 'blocks', 'queries', 'solver_s', 'validated', 'xchecked'):
             out[k] += rec[k]
         out['funcs'].update(rec['funcs'])
         st = rec['status']
@@ -211,7 +268,7 @@ def work(task):
             for w in rec['witnesses']:
                 if len(out['witnesses']) < 20:
                     out['witnesses'].append(w)
-        elif st in ('inconclusive', 'budget', 'engine_error', 'engine_mismatch'):
+        elif st in ('inconclusive', 'budget', 'engine_error', 'engine_mismatch', 'solver_disagreement'):
             if len(out['problems']) < 5:
                 out['problems'].append({'status': st, 'detail': rec.get('detail'), 'prefix': p})
         if 'sample' in rec and len(out['samples']) < 5:
@@ -231,7 +288,7 @@ def explore(jobs, workers=None, chunk=40, max_paths=None, deadline=None, progres
     """Run all jobs to exhaustion (or until max_paths / deadline).  Returns aggregated stats."""
     workers = workers or min(16, os.cpu_count() or 4)
     G['jobs'] = {j.name: j for j in jobs}
-    agg = {'paths': 0, 'steps': 0, 'blocks': 0, 'queries': 0, 'solver_s': 0.0, 'validated': 0,
+    agg = {'paths': 0, 'steps': 0, 'blocks': 0, 'queries': 0, 'solver_s': 0.0, 'validated': 0, 'xchecked': 0,
            'status_counts': {}, 'witnesses': [], 'samples': [], 'problems': [], 'known_hits': {},
            'per_job': {}, 'funcs': set(), 'complete': True}
     tasks = [(j.name, [], chunk) for j in jobs]
@@ -241,7 +298,7 @@ def explore(jobs, workers=None, chunk=40, max_paths=None, deadline=None, progres
 
     def absorb(r):
         agg['paths'] += r['paths']
-        for k in ('steps', 'blocks', 'queries', 'solver_s', 'validated'):
+        for k in ('steps', 'blocks', 'queries', 'solver_s', 'validated', 'xchecked'):
             agg[k] += r[k]
         for k, v in r['status_counts'].items():
             agg['status_counts'][k] = agg['status_counts'].get(k, 0) + v
